@@ -53,7 +53,7 @@ PAR = max(2, min(12, rig.NCPU * 3 // 4))       # driver+Trace shards processed b
 ALLPL = ["para", "start", "cont", "list", "heading", "quote", "codetab", "codesp"]
 CORE = ["para", "start", "heading", "codetab"]
 RULE = ("every string of length <= GenLen over the 19-symbol Markdown alphabet, of length <= GenWs over the 7-symbol "
-        "white-space alphabet (with TAB), of length <= GenCore over the 8-symbol core alphabet (with ';'), a 49-string "
+        "white-space alphabet (with TAB), of length <= GenCore over the 8-symbol core alphabet (with ';'), of length <= GenWsCore over the 4-symbol line-structure alphabet (TAB SP LF a), a 49-string "
         "dictionary of Markdown constructs (all exported by TLC) and seeded fragment mixes, each shown in 8 placements "
         "(thorough tier: the strings of length GenLen of the whole alphabet and of length GenCore of the core alphabet in 4 "
         "placements: para, start, heading, codetab); non-trivial = the rendered slice differs from the input; "
@@ -160,7 +160,7 @@ def second_pass(ctx, cands):
 
 def run(ctx, replay_case=None):
     consts = {"MaxLen": 4, "Len16": ctx.pick(4, 5), "WsLen": ctx.pick(5, 6), "GenLen": ctx.pick(3, 4), "GenWs": ctx.pick(3, 5),
-              "GenCore": ctx.pick(3, 5)}
+              "GenCore": ctx.pick(3, 5), "GenWsCore": ctx.pick(6, 7)}
     extra = ctx.pick(400, 8000)
     phase, t0 = {}, time.time()
 
